@@ -931,6 +931,17 @@ class Interp:
                         if rt == tgt or (tgt == "String" and rt == "String"): return args[0]
                         raise Unsupported(f"Into<{tgt}> from {rt}")
                 trl = tr.split("::")[-1]
+                if trl in ("BitOr", "BitAnd", "BitXor") and meth in ("bitor", "bitand", "bitxor") and len(args) == 2:
+                    # operator impls on references to primitives (`&u8 | u8`): the primitive operation on the pointees
+                    vals = []
+                    for a in args:
+                        for _ in range(3):
+                            u = unwrap_ptr(a)
+                            if type(u) is Ptr: a = self.read(u.cell, u.path)
+                            else: break
+                        vals.append(a)
+                    if all(isinstance(v, (int, bool)) or is_sym(v) for v in vals):
+                        return self.binop(trl, vals[0], vals[1], norm_type(ty).lstrip("&"))
                 if args and trl in ("PartialEq", "Clone", "Ord", "PartialOrd") and norm_type(ty) not in self.S_types_custom:
                     # derived impls on field-less enums / scalars: structural (two crates may define same-named types)
                     v0 = args[0]
